@@ -247,3 +247,37 @@ def constructor_only_helpers(cls) -> set:
                 out.add(name)
                 changed = True
     return out
+
+
+def as_comprehension(prog, cls, f, e):
+    """the generator expression / comprehension ``e`` stands for: ``e`` itself, a local bound to one, or a call of a parameterless
+    generator method of ``cls`` whose body is a single `for ...: yield <expr>` loop (returned as the equivalent GeneratorExp)"""
+    from .flow import Flow
+    if isinstance(e, (ast.GeneratorExp, ast.ListComp)):
+        return e
+    if isinstance(e, ast.Name):
+        ex = Flow(f.node).expand(e)
+        if ex is not e:
+            return as_comprehension(prog, cls, f, ex)
+        return comprehension_of(f.node, e.id)
+    if isinstance(e, ast.Call) and isinstance(e.func, ast.Attribute) and isinstance(e.func.value, ast.Name) \
+            and e.func.value.id == f.self_name and not e.args and not e.keywords and cls is not None:
+        g = prog.resolve(cls, e.func.attr)
+        if g is not None and g.is_generator and g.self_name == f.self_name or (g is not None and g.is_generator):
+            body = [st for st in g.node.body if not (isinstance(st, ast.Expr) and isinstance(st.value, ast.Constant))]
+            def yielded(st):
+                """the expression a one-statement loop body yields: `yield E`, or `if c: yield A else: yield B` as a conditional"""
+                if isinstance(st, ast.Expr) and isinstance(st.value, ast.Yield) and st.value.value is not None:
+                    return st.value.value
+                if isinstance(st, ast.If) and len(st.body) == 1 and len(st.orelse) == 1:
+                    a_, b_ = yielded(st.body[0]), yielded(st.orelse[0])
+                    if a_ is not None and b_ is not None:
+                        return ast.copy_location(ast.IfExp(test=st.test, body=a_, orelse=b_), st)
+                return None
+            if len(body) == 1 and isinstance(body[0], ast.For) and not body[0].orelse and len(body[0].body) == 1 \
+                    and yielded(body[0].body[0]) is not None and g.self_name == f.self_name:
+                lp = body[0]
+                comp = ast.GeneratorExp(elt=yielded(lp.body[0]),
+                                        generators=[ast.comprehension(target=lp.target, iter=lp.iter, ifs=[], is_async=0)])
+                return ast.copy_location(comp, lp)
+    return None
